@@ -320,7 +320,10 @@ class SDML_Supervised(_BaseSDML, TransformerMixin):
     else:
       self.n_constraints = n_constraints
     # Avoid test get_params from failing (all params passed sholud be set)
-    self.num_constraints = 'deprecated'
+    # keep the marker object that was passed: clone compares constructor
+    # parameters by identity, which a pickle round trip does not preserve
+    self.num_constraints = (
+        num_constraints if num_constraints == 'deprecated' else 'deprecated')
 
   def fit(self, X, y):
     """Create constraints from labels and learn the SDML model.
